@@ -11,6 +11,17 @@ use std::sync::{Arc, Mutex};
 // ---------------------------------------------------------------------------------------------
 // Fault plan + callback counter (process global; plain std atomics, never a managed lock).
 
+/// values read back from salsa that carry the allocator's poison pattern (C23)
+pub static POISON_READS: AtomicU64 = AtomicU64::new(0);
+const POISON_U32: u32 = 0xDEDE_DEDE;
+#[inline]
+fn chk(x: u32) -> u32 {
+    if x == POISON_U32 {
+        POISON_READS.fetch_add(1, SeqCst);
+    }
+    x
+}
+
 pub mod fault {
     use super::*;
     pub static COUNT: AtomicU64 = AtomicU64::new(0);
@@ -463,16 +474,16 @@ fn call_node<'db>(db: &'db dyn SimDb, node: usize) -> u32 {
     let sh = db.sh();
     let k = sh.key(node);
     match sh.prog.nodes[node].kind {
-        Kind::Plain => q_plain(db, k).0,
-        Kind::NoEq => q_noeq(db, k).0,
-        Kind::Lru => q_lru(db, k).0,
-        Kind::Multi => q_multi(db, k, 0).0,
-        Kind::Zero => q_zero(db).0,
-        Kind::Ref => q_ref(db, k)[0],
-        Kind::Mk => q_mk(db, k).v.0,
-        Kind::Fix | Kind::FixBad => q_fix(db, k).0,
-        Kind::FixJ => q_fixj(db, k).0,
-        Kind::Fb => q_fb(db, k).0,
+        Kind::Plain => chk(q_plain(db, k).0),
+        Kind::NoEq => chk(q_noeq(db, k).0),
+        Kind::Lru => chk(q_lru(db, k).0),
+        Kind::Multi => chk(q_multi(db, k, 0).0),
+        Kind::Zero => chk(q_zero(db).0),
+        Kind::Ref => chk(q_ref(db, k)[0]),
+        Kind::Mk => chk(q_mk(db, k).v.0),
+        Kind::Fix | Kind::FixBad => chk(q_fix(db, k).0),
+        Kind::FixJ => chk(q_fixj(db, k).0),
+        Kind::Fb => chk(q_fb(db, k).0),
         // keyed by a struct, not callable by node
         Kind::OnTs | Kind::Spec | Kind::OnIt | Kind::POnTs => 0,
         Kind::PPlain | Kind::PMulti | Kind::PMk => 0,
@@ -527,11 +538,11 @@ impl<'db> Host for SalsaHost<'db> {
         t
     }
     fn read_ts(&mut self, h: &Ts<'db>, f: usize) -> u32 {
-        let v = match f {
+        let v = chk(match f {
             0 => h.ident(self.db).0,
             1 => h.t0(self.db).0,
             _ => h.t1(self.db).0,
-        };
+        });
         self.db.sh().push(Ev::RdTs { id: h.as_id().as_bits(), f, v });
         v
     }
@@ -560,7 +571,7 @@ impl<'db> Host for SalsaHost<'db> {
     }
     fn read_it(&mut self, h: &ItH<'db>) -> u32 {
         self.db.sh().push(Ev::RdIt { id: h.id().as_bits() });
-        h.v(self.db)
+        chk(h.v(self.db))
     }
     fn call_on_it(&mut self, h: &ItH<'db>) -> u32 {
         let Some(n) = self.db.sh().prog.node_of_kind(Kind::OnIt) else { return 0 };
